@@ -403,6 +403,48 @@ func Run(cs Case, c *vrt.Ctx) {
 				}
 			}
 		}
+		// a pointer to a time is written as the time is (a pointer anywhere encodes what it points
+		// to): as a struct field for every encoder, as an element of a typed slice or map for oj,
+		// alt and pretty (sen hands such an element to the type's marshaler and a plain time
+		// element not - seen, not decided by any document, left out)
+		type pq struct{ Q *time.Time }
+		type vq struct{ Q time.Time }
+		for _, pair := range []struct {
+			ptr, val any
+			sen      bool
+		}{
+			{pq{&when}, vq{when}, true},
+			{&pq{&when}, &vq{when}, true},
+			{[]*time.Time{&when, &when}, []time.Time{when, when}, false},
+			{map[string]*time.Time{"k": &when}, map[string]time.Time{"k": when}, false},
+		} {
+			o := options(cs.Opt, 0)
+			o.CreateKey = ""
+			ws := []struct {
+				name string
+				f    func(any) string
+			}{
+				{"oj.JSON", func(v any) string { return oj.JSON(v, o) }},
+				{"alt.Decompose", func(v any) string { return oj.JSON(alt.Decompose(v, o), &ojg.Options{Sort: true}) }},
+				{"pretty.JSON", func(v any) string { return pretty.JSON(v, o) }},
+			}
+			if pair.sen {
+				ws = append(ws, struct {
+					name string
+					f    func(any) string
+				}{"sen.String", func(v any) string { return sen.String(v, o) }})
+			}
+			for _, w := range ws {
+				var a, b string
+				if pv, stack := vrt.Catch(func() { a, b = w.f(pair.ptr), w.f(pair.val) }); pv != nil {
+					c.Fail("panic", w.name+"(pointer to a time)", fmt.Sprintf("%v at %s", pv, stack))
+					continue
+				}
+				if a != b || a == "" {
+					c.Fail("pointer-to-time-differs", w.name, fmt.Sprintf("%T gives %q, %T gives %q", pair.ptr, a, pair.val, b))
+				}
+			}
+		}
 		c.Class("self-writing-field(oj vs sen)")
 	}
 	feats := map[string]bool{}
